@@ -443,7 +443,7 @@ class Interp:
             return v
         if isinstance(v, (tuple, PyList)) and isinstance(like, SeqV):
             items = v if isinstance(v, tuple) else v.items
-            return SeqV(self.world.box(PyList(items), SeqT(like.elem)), like.elem)
+            return SeqV(self.world.box(PyList(items), SeqT(like.elem, ax=is_aseq(like.term))), like.elem, isinstance(v, tuple))
         raise Unsupp("sequence coercion")
 
     def contains(self, container, x):
@@ -489,6 +489,8 @@ class Interp:
         if isinstance(a, SetV) or isinstance(b, SetV):
             if not (isinstance(a, SetV) and isinstance(b, SetV)):
                 raise RaiseExc("TypeError", node)
+            if a.term is None and b.term is None and isinstance(op, (ast.BitOr, ast.BitAnd, ast.Sub, ast.BitXor)):
+                return SetV(None, None)          # every set operation on two empty sets is the empty set
             ta, tb = self.set_term(a, b), self.set_term(b, a)
             elem = a.elem or b.elem
             if isinstance(op, ast.BitOr):
